@@ -97,18 +97,22 @@ class World:
             return L["Pipeline"](self.objs[t[1]])
         if k == "add":
             return self.build(t[1]) + self.build(t[2])
+        if k == "iadd":          # the augmented spelling: p = <left>; p += <right>
+            p = self.build(t[1])
+            p += self.build(t[2])
+            return p
         raise AssertionError(t)
 
     def is_raw(self, t):
         return t[0] == "step" and self.descs[t[1]][0] in ("callable", "rcallable")
 
     def norm(self, t):
-        if t[0] != "add":
+        if t[0] not in ("add", "iadd"):
             return t
         l, r = self.norm(t[1]), self.norm(t[2])
         if self.is_raw(l):
             l = ("add", ("empty",), l)
-        return ("add", l, r)
+        return (t[0], l, r)
 
     def as_pipeline(self, obj):
         L = self.L
@@ -141,6 +145,7 @@ class World:
             return "(CPipe empty_pipe)"
         if k == "single":
             return f"(CPipe (single {t[1]}%N))"
+        # ("iadd", l, r) is `p = l; p += r`: the language defines it as p = p + r, the model's CAdd
         return f"(CAdd {self.coq_cexpr(t[1])} {self.coq_cexpr(t[2])})"
 
 
@@ -553,6 +558,283 @@ def helper_enumeration(viol):
     return cases, samples
 
 
+# ----------------------------------------------------------------------------- composition does not change its operands
+#
+# "(p + q).transform(x, o) equals q.transform(p.transform(x, o), o)", "iterating a pipeline yields its
+# steps", "the empty pipeline is the identity" speak about p, q and the empty pipeline AS THEY ARE after
+# the composition too: composing (with +, with the augmented `p += q`, which Python defines as
+# p = p + q, with >> / >>=, at any nesting depth) hands out a NEW pipeline and leaves every object it
+# was given - and every other reference to it - what it was.
+
+def plain(t):
+    """the same construction tree spelled with the binary + only"""
+    if t[0] in ("add", "iadd"):
+        return ("add", plain(t[1]), plain(t[2]))
+    return t
+
+
+def descs_payload(w):
+    return {str(k): list(v) for k, v in w.descs.items()}
+
+
+def snap(w, obj, opts_list):
+    return tuple(observe_impl(w, w.as_pipeline(obj), o)[0] for o in opts_list)
+
+
+def build_tracked(w, t, track, opts_list):
+    """World.build, keeping every object made along the way (leaves and intermediate pipelines) with
+    the observation taken when it was made; an evaluation of each happens between the compositions"""
+    k = t[0]
+    if k in ("add", "iadd"):
+        lo = build_tracked(w, t[1], track, opts_list)
+        ro = build_tracked(w, t[2], track, opts_list)
+        if k == "add":
+            res = lo + ro
+        else:
+            p = lo
+            p += ro
+            res = p
+    else:
+        res = w.build(t)
+    track.append((t, res, snap(w, res, opts_list)))
+    return res
+
+
+def aliasing_oracle(w, leaves, t, opts_list, viol, tracked_out=None):
+    """violations of "operands are unchanged by composition" for one construction tree (its nodes are
+    + or +=); returns the number of checks"""
+    L = w.L
+    base = dict(leaves=leaves, descs=descs_payload(w), tree=t, options_list=opts_list, kind_detail="aliasing")
+    checks = 0
+    n0 = len(viol)
+    track = []
+    root = build_tracked(w, t, track, opts_list)
+    root_snap = track[-1][2]
+
+    def unchanged(stage):
+        nonlocal checks
+        for sub, obj, before in track:
+            checks += 1
+            after = snap(w, obj, opts_list)
+            if after != before:
+                viol.append(dict(base, desc=f"an object handed to a composition ({stage}) is no longer the pipeline it was: "
+                                            "composition must not change its operands", operand=sub, before=before, after=after))
+                return False
+        return True
+    ok = unchanged("+ / += inside the construction tree")
+    # the augmented spelling denotes the same pipeline as the binary one
+    checks += 1
+    spec = snap(w, w.build(plain(t)), opts_list)
+    if root_snap != spec:
+        viol.append(dict(base, desc="a pipeline built with `p += q` differs from the one built with p + q", got=root_snap, want=spec))
+    # one base, referenced from two places, extended into two variants
+    if ok and not w.is_raw(t):
+        ext = [leaves[0], leaves[-1]]
+        for how in ("iadd", "add"):
+            for x in ext:
+                xo = w.build(x)
+                p = root
+                if how == "iadd":
+                    p += xo
+                else:
+                    p = p + xo
+                checks += 1
+                got, want = snap(w, p, opts_list), snap(w, w.build(w.norm(("add", plain(t), x))), opts_list)
+                if got != want:
+                    viol.append(dict(base, desc=f"a shared base pipeline extended ({'+=' if how == 'iadd' else '+'}) into a second variant "
+                                                "does not give base + step", extension=x, got=got, want=want))
+                    ok = False
+                    break
+            ok = ok and unchanged(f"extension of the shared base with {'+=' if how == 'iadd' else '+'}")
+            if not ok:
+                break
+    # e >> p and the augmented e >>= p: p and e stay what they were
+    if ok:
+        src = L["Option"]("SRC", default=[])
+        e = src
+        rp = w.as_pipeline(root)
+        e >>= rp
+        e2 = src >> rp
+        for o in opts_list:
+            po = dict(py_opts(o), SRC=[(77, None)])
+            checks += 2
+            want = attempt(lambda: rp.transform([(77, None)], po))
+            for nm, ex in ((">>=", e), (">>", e2)):
+                got = attempt(lambda: ex.evaluate(po))
+                if got != want:
+                    viol.append(dict(base, desc=f"(e {nm} p)(o) != p.transform(e(o), o)", options=o, got=got, want=want))
+            if attempt(lambda: src.evaluate(po)) != [(77, None)]:
+                viol.append(dict(base, desc="the source of e >>= p is no longer the expression it was", options=o))
+        unchanged(">> / >>=")
+    # accumulation loops starting from ONE empty pipeline object
+    EMPTY = L["Pipeline"]()
+    empty_snap = snap(w, EMPTY, opts_list)
+    for rnd in (1, 2):
+        acc = EMPTY
+        nested = ("empty",)
+        for x in leaves:
+            acc += w.build(x)
+            nested = ("add", nested, x)
+        checks += 2
+        got, want = snap(w, acc, opts_list), snap(w, w.build(nested), opts_list)
+        if got != want:
+            viol.append(dict(base, desc=f"accumulating the steps with += from a shared empty pipeline (round {rnd}) does not give their sum",
+                             got=got, want=want))
+        if not EMPTY.empty or snap(w, EMPTY, opts_list) != empty_snap or attempt(lambda: EMPTY.transform([], {})) != []:
+            viol.append(dict(base, desc="the empty pipeline used as the start of a += accumulation is no longer the identity",
+                             after=snap(w, EMPTY, opts_list)))
+            break
+    if tracked_out is not None:
+        tracked_out.extend((sub, obj) for sub, obj, _ in track)
+    del viol[n0 + 1:]      # one failing input per tree is enough
+    return checks
+
+
+def augment(rng, t):
+    """the same bracketing with some of its + spelled +="""
+    if t[0] != "add":
+        return t
+    return ("iadd" if rng.random() < 0.6 else "add", augment(rng, t[1]), augment(rng, t[2]))
+
+
+# ----------------------------------------------------------------------------- helper constructions in a longer history
+#
+# "each of which computes the corresponding Python operation with the documented operand order": for
+# THIS operand, whatever helper steps were built before in the process.  Constants that are == (and
+# hash alike) but are different Python values (1, 1.0, True; 0, -0.0, False; (1, 2), (1.0, 2.0);
+# equal lists) give different Python operations; results are compared with their TYPE (type name +
+# repr), failures by exception class, on numeric, string, list, tuple and mapping inputs.
+
+EQUAL_GROUPS = [
+    [1, 1.0, True], [0, 0.0, False, -0.0], [2, 2.0], [4, 4.0], [-1, -1.0],
+    [(1, 2), (1.0, 2.0), (True, 2)], [[1], [1.0], [True]], ["a", "a"], [(), ()], [None, None],
+]
+HISTORY_INPUTS = [2, 5, 7.5, True, "ab", "%s|", [0, 1], (3, 4), {1: "one", 0: "zero", "a": "A"}, None, -3, 0]
+
+
+def binary_helpers():
+    import labrea.functions as F
+    return {
+        "add": (F.add, lambda x, a: x + a),
+        "subtract": (F.subtract, lambda x, a: x - a),
+        "multiply": (F.multiply, lambda x, a: x * a),
+        "left_multiply": (F.left_multiply, lambda x, a: a * x),
+        "divide_by": (F.divide_by, lambda x, a: x / a),
+        "divide_into": (F.divide_into, lambda x, a: a / x),
+        "modulo": (F.modulo, lambda x, a: x % a),
+        "eq": (F.eq, lambda x, a: x == a), "ne": (F.ne, lambda x, a: x != a),
+        "gt": (F.gt, lambda x, a: x > a), "ge": (F.ge, lambda x, a: x >= a),
+        "lt": (F.lt, lambda x, a: x < a), "le": (F.le, lambda x, a: x <= a),
+        "get": (F.get, lambda x, a: x[a]),
+        "get/default": (lambda a: F.get("zz", a), _get_default),
+        "get_from": (F.get_from, lambda x, a: a[x]),
+        "append": (F.append, lambda x, a: [*x, a]),
+        "concat": (F.concat, lambda x, a: [*x, *a]),
+        "contains": (F.contains, lambda x, a: a in x), "does_not_contain": (F.does_not_contain, lambda x, a: a not in x),
+        "is_in": (F.is_in, lambda x, a: x in a), "is_not_in": (F.is_not_in, lambda x, a: x not in a),
+        "one_of": (lambda a: F.one_of(a, "q"), lambda x, a: x in (a, "q")),
+        "none_of": (lambda a: F.none_of(a, "q"), lambda x, a: x not in (a, "q")),
+        "has_remainder/divisor": (lambda a: F.has_remainder(a, 1), lambda x, a: x % a == 1),
+        "has_remainder/remainder": (lambda a: F.has_remainder(2, a), lambda x, a: x % 2 == a),
+        "reduce/initial": (lambda a: F.reduce((lambda u, v: u + v), a), lambda x, a: _fold(x, a)),
+    }
+
+
+def _get_default(x, a):
+    try:
+        return x["zz"]
+    except (KeyError, IndexError):      # "the default value to return if the key/index is not found"
+        return a
+
+
+def _fold(x, a):
+    for v in x:
+        a = a + v
+    return a
+
+
+def typed_outcome(thunk):
+    try:
+        v = thunk()
+        if hasattr(v, "__next__"):
+            v = list(v)
+        return ("ok", type(v).__name__, repr(v))
+    except Exception as e:  # noqa
+        return ("raise", type(e).__name__)
+
+
+def helper_history_check(name, consts, upto=None):
+    """build helper `name` for the constants in order (one process, one history); every step built must
+    compute the Python operation for ITS operand.  Returns (first failure or None, checks)"""
+    from labrea import Option
+    fac, op = binary_helpers()[name]
+    checks = 0
+    swept = fac(Option("ARG"))           # ONE step with an option-valued argument, swept over the same values
+    shared = {}
+    steps = []
+    for i, c in enumerate(consts):
+        step = fac(c)
+        steps.append(step)
+        for x in HISTORY_INPUTS:
+            want = typed_outcome(lambda: op(x, c))
+            shared.clear()
+            shared["ARG"] = c
+            forms = [("constant", lambda: step.transform(x, {})),
+                     ("option", lambda: swept.transform(x, shared)),
+                     ("option (fresh step)", lambda: fac(Option("ARG")).transform(x, {"ARG": c}))]
+            if want[0] == "ok":
+                forms.append(("e >> helper(constant)", lambda: (Option("IN") >> step)({"IN": x})))
+            for form, th in forms:
+                checks += 1
+                got = typed_outcome(th)
+                if got != want:
+                    return dict(desc=f"helper {name} built for the constant {c!r} (after it was built for {[repr(k) for k in consts[:i]]}) "
+                                     f"does not compute the Python operation for its own operand ({form} argument)",
+                                helper_history=name, consts=[repr(k) for k in consts[:i + 1]], form=form, input=repr(x),
+                                got=list(got), python=list(want), kind_detail="helper-history"), checks
+        # the steps built earlier are still the steps they were
+        for j, (s0, c0) in enumerate(zip(steps[:-1], consts)):
+            x = HISTORY_INPUTS[(i + j) % len(HISTORY_INPUTS)]
+            checks += 1
+            got, want = typed_outcome(lambda: s0.transform(x, {})), typed_outcome(lambda: op(x, c0))
+            if got != want:
+                return dict(desc=f"helper {name}: the step built for {c0!r} changed after the helper was built for {c!r}",
+                            helper_history=name, consts=[repr(k) for k in consts[:i + 1]], form="constant (earlier step)", input=repr(x),
+                            got=list(got), python=list(want), kind_detail="helper-history"), checks
+        if step.keys({}) != set() or step.explain({}) != set() or swept.keys(shared) != {"ARG"} or swept.explain() != {"ARG"}:
+            return dict(desc=f"helper {name}: keys()/explain() do not report exactly the option-valued argument",
+                        helper_history=name, consts=[repr(k) for k in consts[:i + 1]], form="keys", input="", got=[], python=[],
+                        kind_detail="helper-history"), checks
+    return None, checks
+
+
+def helper_histories(rng, viol, rounds):
+    """per helper ONE growing history (the process-wide one of this run): groups of ==-equal constants
+    in random order, with repeats"""
+    names = sorted(binary_helpers())
+    hist = {n: [] for n in names}
+    checks = 0
+    failed = set()
+    for r in range(rounds):
+        name = names[r % len(names)] if r < 2 * len(names) else rng.choice(names)
+        if name in failed:
+            continue
+        g = list(rng.choice(EQUAL_GROUPS[:5]) if r < len(names) else rng.choice(EQUAL_GROUPS))
+        rng.shuffle(g)
+        g.append(g[0])                    # o1, o2, ..., o1 again
+        start = len(hist[name])
+        hist[name] += g
+        # the whole history of this helper is replayed from its start on a failure (so that the replay file
+        # reproduces it in a fresh process); the check itself only needs the new part
+        v, n = helper_history_check(name, g)
+        checks += n
+        if v is not None:
+            full, _ = helper_history_check(name, hist[name])
+            viol.append(full if full is not None else v)
+            failed.add(name)
+    return checks, {n: len(h) for n, h in hist.items()}
+
+
 def run(ctx):
     L = _labrea()
     rng = ctx.rng
@@ -575,7 +857,10 @@ def run(ctx):
         trees = [w.norm(t) for t in trees]
         opts_list = gen_options(rng)
         built = [w.build(t) for t in trees]
+        n_before = len(viol)
         oracle_checks += oracle(w, leaves, trees, built, opts_list, viol)
+        for v in viol[n_before:]:
+            v.setdefault("descs", descs_payload(w))
         tbl = w.coq_tbl()
         for t, b in zip(trees, built):
             p = w.as_pipeline(b)
@@ -591,19 +876,43 @@ def run(ctx):
                     dist["outcomes"]["keys_fail"] += 1
                 if len(leaves) >= 2 and obs["transform"]:
                     distinct.add(lib.stable_hash([leaves, sorted(w.descs.items()), t, sorted(o.items())]))
+    # ---- drawn after the older stream (which stays what it was for a given seed): construction trees whose
+    # nodes are + or +=, every object built along the way observed again AFTER all compositions
+    alias_checks, alias_trees, alias_cases = 0, 0, 0
+    for wi in range(50 if ctx.quick else 500):
+        w, leaves = gen_world(rng, L)
+        trees = bracketings(leaves)
+        trees = [w.norm(augment(rng, t)) for t in rng.sample(trees, min(len(trees), 2 if ctx.quick else 4))]
+        opts_list = gen_options(rng)[:3]
+        tbl = w.coq_tbl()
+        for t in trees:
+            tracked = []
+            alias_checks += aliasing_oracle(w, leaves, t, opts_list, viol, tracked)
+            alias_trees += 1
+            seen_sub = set()
+            for sub, obj in tracked:      # the model's value of every sub-pipeline vs the object as it is NOW
+                if repr(sub) in seen_sub:
+                    continue
+                seen_sub.add(repr(sub))
+                o = opts_list[1] if sub is not t else opts_list[-1]
+                line, _ = observe_impl(w, w.as_pipeline(obj), o)
+                cases.append((f"observe {tbl} {w.coq_cexpr(sub)} {coq_opts(o)}", line,
+                              dict(leaves=leaves, descs=descs_payload(w), tree=sub, options=o, whole_tree=t, observed="after all compositions")))
+                alias_cases += 1
     model_lines = ctx.coq_eval("Cases_C13", ["Model.Pipeline", "Model.PipelineRun"], "", [c[0] for c in cases])
     mism = []
     for (expr, line, payload), ml in zip(cases, model_lines):
         if ml != line:
             mism.append(dict(where="Model/Pipeline.v vs labrea.pipeline", scenario=payload, impl=line, model=ml))
     hviol = []
+    hist_checks, hist_lengths = helper_histories(rng, hviol, 90 if ctx.quick else 900)
     hcases, hsamples = helper_enumeration(hviol)
     for v in hviol:
-        v["kind_detail"] = "helper"
+        v.setdefault("kind_detail", "helper")
     violations = [dict(v, finding=None) for v in viol + hviol]
     samples = [dict(scenario=cases[i][2], observation=cases[i][1]) for i in range(0, len(cases), max(1, len(cases) // 4))][:4] + hsamples[:2]
     return {
-        "evaluations": len(cases) + oracle_checks + hcases,
+        "evaluations": len(cases) + oracle_checks + hcases + alias_checks + hist_checks,
         "distinct_nontrivial": len(distinct),
         "rule": "random sequences of 1-6 leaves (decorated steps with option parameters with/without default, plain and raising callables, "
                 "Pipeline(step), empty pipelines, the Identity step) x all bracketings (sampled above the cap) x 3-4 option dictionaries; "
@@ -614,7 +923,9 @@ def run(ctx):
         "correspondence_mismatches": mism[:5],
         "violations": violations,
         "known": [],
-        "distribution": dict(dist, oracle_checks=oracle_checks, helper_cases=hcases, model_cases=len(cases), mismatches=len(mism)),
+        "distribution": dict(dist, oracle_checks=oracle_checks, helper_cases=hcases, model_cases=len(cases), mismatches=len(mism),
+                             aliasing_trees=alias_trees, aliasing_checks=alias_checks, aliasing_model_cases=alias_cases,
+                             helper_history_checks=hist_checks, helper_history_lengths=hist_lengths),
         "exhaustive": False,
         "assumptions": [
             "steps are deterministic functions of (input, parameters); the free-algebra bodies make any wrong argument visible",
@@ -631,6 +942,18 @@ def replay(ctx, payload):
     if "leaves" in v and "descs" in v.get("scenario", v):
         pass
     sc = v.get("scenario", v)
+    if v.get("kind_detail") == "helper-history":
+        import ast
+        consts = [ast.literal_eval(c) for c in v["consts"]]
+        f, n = helper_history_check(v["helper_history"], consts)
+        return f is not None, {"helper": v["helper_history"], "history": v["consts"], "checks": n, "failure": f}
+    if v.get("kind_detail") == "aliasing":
+        w = World(L, {int(k): tuple(d) for k, d in v["descs"].items()})
+        tup = lambda t: tuple(tup(x) if isinstance(x, list) else x for x in t)  # noqa: E731
+        av = []
+        n = aliasing_oracle(w, [tup(l) for l in v["leaves"]], tup(v["tree"]),
+                            [{int(k): val for k, val in o.items()} for o in v["options_list"]], av)
+        return bool(av), {"checks": n, "failures": av[:2]}
     if "helper" in v:
         hv = []
         helper_enumeration(hv)
@@ -644,11 +967,15 @@ def replay(ctx, payload):
 
     def tup(t):
         return tuple(tup(x) if isinstance(x, list) else x for x in t)
-    t = tup(sc["tree"])
     leaves = [tup(l) for l in sc["leaves"]]
     o = {int(k): val for k, val in sc["options"].items()}
     viol = []
-    oracle(w, leaves, [t], [w.build(t)], [o], viol)
+    if "tree" not in sc:        # an associativity failure names two bracketings
+        ts = [tup(sc["tree_a"]), tup(sc["tree_b"])]
+        oracle(w, leaves, ts, [w.build(t) for t in ts], [o], viol)
+        return bool(viol), {"oracle_violations": viol[:3]}
+    t = tup(sc["tree"])
+    oracle(w, leaves, [t], [w.build(t)], [o, o], viol)
     line, _ = observe_impl(w, w.as_pipeline(w.build(t)), o)
     ml = ctx.coq_eval("Replay_C13", ["Model.Pipeline", "Model.PipelineRun"], "",
                       [f"observe {w.coq_tbl()} {w.coq_cexpr(t)} {coq_opts(o)}"])[0]
